@@ -18,6 +18,7 @@ EXTENDS Naturals, Sequences, FiniteSets, TLC
 
 CONSTANTS SurfSeq,      \* sequence of surface names, in the order given to AerostructPoint
           Relief,       \* surfaces with struct_weight_relief
+          Compressible, \* AerostructPoint(compressible=True): the lattice solver runs in the Prandtl-Glauert frame
           MaxSweep
 
 Surfs == {SurfSeq[i] : i \in 1 .. Len(SurfSeq)}
@@ -30,6 +31,8 @@ LD(s) == <<s, "_loads">>
 SV(s, x) == <<s, x>>
 GV(x) == <<"", x>>
 
+\* the component whose <s>_sec_forces are the BODY-FRAME sectional forces handed to the structure and to mesh_point_forces
+SecForceProducer == IF Compressible THEN AS("inverse_pg_transform.rotate") ELSE AS("panel_forces_surf")
 StructWires(s) ==
    {W(P(s, "struct_states.total_loads"), GV("loads"), LD(s), GV("loads")),                                   \* the coupling feedback
     W(P(s, "struct_states.create_rhs"), GV("total_loads"), P(s, "struct_states.total_loads"), GV("total_loads")),
@@ -40,8 +43,46 @@ StructWires(s) ==
     W(P(s, "def_mesh.displacement_transfer"), GV("transformation_matrix"), P(s, "def_mesh.compute_transformation_matrix"), GV("transformation_matrix")),
     W(P(s, "aero_geom"), GV("def_mesh"), P(s, "def_mesh.displacement_transfer"), GV("def_mesh")),
     W(LD(s), GV("def_mesh"), P(s, "def_mesh.displacement_transfer"), GV("def_mesh")),
-    W(LD(s), GV("sec_forces"), AS("panel_forces_surf"), SV(s, "sec_forces"))}
+    W(LD(s), GV("sec_forces"), SecForceProducer, SV(s, "sec_forces"))}
    \cup (IF s \in Relief THEN {W(P(s, "struct_states.total_loads"), GV("struct_weight_loads"), P(s, "struct_states.struct_weight_loads"), GV("struct_weight_loads"))} ELSE {})
+\* compressible pipeline (Prandtl-Glauert): geometry rotated into the wind frame and stretched, incompressible lattice solve
+\* there, forces scaled and rotated back.  pg_frame (alpha_pg = beta_pg = 0) is a framework IndepVarComp: see OASWiring.
+AeroSurfWiresC(s) ==
+   {W(AS("collocation_points"), SV(s, "def_mesh"), P(s, "def_mesh.displacement_transfer"), GV("def_mesh")),
+    W(AS("pg_transform.rotate"), SV(s, "def_mesh"), P(s, "def_mesh.displacement_transfer"), GV("def_mesh")),
+    W(AS("pg_transform.rotate"), SV(s, "normals"), P(s, "aero_geom"), GV("normals")),
+    W(AS("pg_transform.scale"), SV(s, "def_mesh_w_frame"), AS("pg_transform.rotate"), SV(s, "def_mesh_w_frame")),
+    W(AS("pg_transform.scale"), SV(s, "normals_w_frame"), AS("pg_transform.rotate"), SV(s, "normals_w_frame")),
+    W(AS("vortex_mesh"), SV(s, "def_mesh"), AS("pg_transform.scale"), SV(s, "def_mesh_pg")),            \* the lattice is built on the TRANSFORMED mesh
+    W(AS("get_vectors"), SV(s, "vortex_mesh"), AS("vortex_mesh"), SV(s, "vortex_mesh")),
+    W(AS("mtx_assy"), SV(s, "coll_pts_vectors"), AS("get_vectors"), SV(s, "coll_pts_vectors")),
+    W(AS("mtx_rhs"), SV(s, "coll_pts_vel_mtx"), AS("mtx_assy"), SV(s, "coll_pts_vel_mtx")),
+    W(AS("mtx_rhs"), SV(s, "normals"), AS("pg_transform.scale"), SV(s, "normals_pg")),                  \* tangency with the TRANSFORMED normals
+    W(AS("get_vectors_force"), SV(s, "vortex_mesh"), AS("vortex_mesh"), SV(s, "vortex_mesh")),
+    W(AS("mtx_assy_forces"), SV(s, "force_pts_vectors"), AS("get_vectors_force"), SV(s, "force_pts_vectors")),
+    W(AS("eval_velocities"), SV(s, "force_pts_vel_mtx"), AS("mtx_assy_forces"), SV(s, "force_pts_vel_mtx")),
+    W(AS("inverse_pg_transform.scale"), SV(s, "sec_forces_pg"), AS("panel_forces_surf"), SV(s, "sec_forces")),
+    W(AS("inverse_pg_transform.rotate"), SV(s, "sec_forces_w_frame"), AS("inverse_pg_transform.scale"), SV(s, "sec_forces_w_frame")),
+    W(AS("mesh_point_forces_surf"), SV(s, "sec_forces"), AS("inverse_pg_transform.rotate"), SV(s, "sec_forces"))}
+AeroWiresC ==
+   {W(AS("pg_transform.rotate"), GV("coll_pts"), AS("collocation_points"), GV("coll_pts")),
+    W(AS("pg_transform.rotate"), GV("bound_vecs"), AS("collocation_points"), GV("bound_vecs")),
+    W(AS("pg_transform.rotate"), GV("force_pts"), AS("collocation_points"), GV("force_pts")),
+    W(AS("pg_transform.scale"), GV("coll_pts_w_frame"), AS("pg_transform.rotate"), GV("coll_pts_w_frame")),
+    W(AS("pg_transform.scale"), GV("bound_vecs_w_frame"), AS("pg_transform.rotate"), GV("bound_vecs_w_frame")),
+    W(AS("pg_transform.scale"), GV("force_pts_w_frame"), AS("pg_transform.rotate"), GV("force_pts_w_frame")),
+    W(AS("get_vectors"), GV("coll_pts"), AS("pg_transform.scale"), GV("coll_pts_pg")),
+    W(AS("get_vectors_force"), GV("force_pts"), AS("pg_transform.scale"), GV("force_pts_pg")),
+    W(AS("panel_forces"), GV("bound_vecs"), AS("pg_transform.scale"), GV("bound_vecs_pg")),
+    W(AS("mtx_rhs"), GV("freestream_velocities"), AS("convert_velocity"), GV("freestream_velocities")),
+    W(AS("solve_matrix"), GV("mtx"), AS("mtx_rhs"), GV("mtx")),
+    W(AS("solve_matrix"), GV("rhs"), AS("mtx_rhs"), GV("rhs")),
+    W(AS("horseshoe_circulations"), GV("circulations"), AS("solve_matrix"), GV("circulations")),
+    W(AS("eval_velocities"), GV("circulations"), AS("solve_matrix"), GV("circulations")),
+    W(AS("eval_velocities"), GV("freestream_velocities"), AS("convert_velocity"), GV("freestream_velocities")),
+    W(AS("panel_forces"), GV("force_pts_velocities"), AS("eval_velocities"), GV("force_pts_velocities")),
+    W(AS("panel_forces"), GV("horseshoe_circulations"), AS("horseshoe_circulations"), GV("horseshoe_circulations")),
+    W(AS("panel_forces_surf"), GV("panel_forces"), AS("panel_forces"), GV("panel_forces"))}
 AeroSurfWires(s) ==
    {W(AS("collocation_points"), SV(s, "def_mesh"), P(s, "def_mesh.displacement_transfer"), GV("def_mesh")),
     W(AS("vortex_mesh"), SV(s, "def_mesh"), P(s, "def_mesh.displacement_transfer"), GV("def_mesh")),
@@ -66,7 +107,8 @@ AeroWires ==
     W(AS("panel_forces"), GV("force_pts_velocities"), AS("eval_velocities"), GV("force_pts_velocities")),
     W(AS("panel_forces"), GV("horseshoe_circulations"), AS("horseshoe_circulations"), GV("horseshoe_circulations")),
     W(AS("panel_forces_surf"), GV("panel_forces"), AS("panel_forces"), GV("panel_forces"))}
-Wires == AeroWires \cup UNION {StructWires(s) \cup AeroSurfWires(s) : s \in Surfs}
+Wires == IF Compressible THEN AeroWiresC \cup UNION {StructWires(s) \cup AeroSurfWiresC(s) : s \in Surfs}
+                         ELSE AeroWires \cup UNION {StructWires(s) \cup AeroSurfWires(s) : s \in Surfs}
 
 (* ---------------- execution order of one Gauss-Seidel sweep ----------------------------------------- *)
 SurfOrder(s) == (IF s \in Relief THEN <<P(s, "struct_states.struct_weight_loads")>> ELSE <<>>) \o
@@ -75,9 +117,13 @@ SurfOrder(s) == (IF s \in Relief THEN <<P(s, "struct_states.struct_weight_loads"
 AeroOrder == <<AS("collocation_points"), AS("vortex_mesh"), AS("get_vectors"), AS("mtx_assy"), AS("convert_velocity"), AS("mtx_rhs"), AS("solve_matrix"),
                AS("horseshoe_circulations"), AS("get_vectors_force"), AS("mtx_assy_forces"), AS("eval_velocities"), AS("panel_forces"),
                AS("panel_forces_surf"), AS("mesh_point_forces_surf")>>
+AeroOrderC == <<AS("collocation_points"), AS("pg_transform.rotate"), AS("pg_transform.scale"), AS("vortex_mesh"), AS("get_vectors"), AS("mtx_assy"),
+                AS("convert_velocity"), AS("mtx_rhs"), AS("solve_matrix"), AS("horseshoe_circulations"), AS("get_vectors_force"), AS("mtx_assy_forces"),
+                AS("eval_velocities"), AS("panel_forces"), AS("panel_forces_surf"), AS("inverse_pg_transform.scale"), AS("inverse_pg_transform.rotate"),
+                AS("mesh_point_forces_surf")>>
 RECURSIVE Cat(_, _)
 Cat(f(_), i) == IF i > Len(SurfSeq) THEN <<>> ELSE f(SurfSeq[i]) \o Cat(f, i + 1)
-Order == Cat(SurfOrder, 1) \o AeroOrder \o Cat(LAMBDA s : <<LD(s)>>, 1)
+Order == Cat(SurfOrder, 1) \o (IF Compressible THEN AeroOrderC ELSE AeroOrder) \o Cat(LAMBDA s : <<LD(s)>>, 1)
 Pos(c) == CHOOSE i \in 1 .. Len(Order) : Order[i] = c
 Comps == {Order[i] : i \in 1 .. Len(Order)}
 Feedback == {w \in Wires : Pos(w.prod) > Pos(w.cons)}
@@ -108,6 +154,13 @@ ReadsLatest == \A w \in Wires : (ver[w.cons] > 0 /\ ver[w.cons] = sweep /\ Pos(w
 \* at the end of a sweep (pos back to 1) every load set is that of the flow about the mesh deformed by the displacements of the
 \* same sweep, which were produced by the loads of the previous sweep: the converged state is a fixed point
 SweepConsistent == (pos = 1 /\ sweep > 1) =>
-      \A s \in Surfs : /\ ver[LD(s)] = sweep - 1 /\ ver[AS("panel_forces_surf")] = sweep - 1
+      \A s \in Surfs : /\ ver[LD(s)] = sweep - 1 /\ ver[SecForceProducer] = sweep - 1
                        /\ ver[P(s, "def_mesh.displacement_transfer")] = sweep - 1 /\ ver[P(s, "struct_states.disp")] = sweep - 1
+\* compressible: the lattice solver (everything between the transformation and its inverse) reads no body-frame geometry, and
+\* the structure / the nodal forces read no Prandtl-Glauert-frame forces
+Lattice == {AS("vortex_mesh"), AS("get_vectors"), AS("mtx_assy"), AS("mtx_rhs"), AS("get_vectors_force"), AS("mtx_assy_forces"), AS("panel_forces")}
+BodyGeom == {P(s, "def_mesh.displacement_transfer") : s \in Surfs} \cup {P(s, "aero_geom") : s \in Surfs} \cup {AS("collocation_points")}
+FramesSeparated == Compressible =>
+      /\ \A w \in Wires : w.cons \in Lattice => w.prod \notin BodyGeom
+      /\ \A w \in Wires : (w.cons \in {LD(s) : s \in Surfs} \cup {AS("mesh_point_forces_surf")} /\ w.var[2] = "sec_forces") => w.prod = AS("inverse_pg_transform.rotate")
 =============================================================================
